@@ -9,6 +9,9 @@ import (
 	"strings"
 
 	"google.golang.org/protobuf/proto"
+	"google.golang.org/protobuf/reflect/protoreflect"
+
+	"github.com/bnb-chain/tss-lib/v2/common"
 )
 
 // Byzantine-node fault injection: one designated node B per run alters one field of one of its
@@ -17,7 +20,23 @@ import (
 func init() {
 	Drivers["byz"] = driveByz
 	Gens["C05"] = func(tier string, seed uint64, run int) *Scenario { return cellScenario("C05", tier, seed, run) }
-	Gens["C06"] = func(tier string, seed uint64, run int) *Scenario { return cellScenario("C06", tier, seed, run) }
+	Gens["C06"] = func(tier string, seed uint64, run int) *Scenario {
+		// field-level matrix cells and wire-level junk runs share the check
+		if tier == "quick" {
+			if run%2 == 1 {
+				return genJunk("C06", tier, seed, run/2)
+			}
+			return cellScenario("C06", tier, seed, run/2)
+		}
+		if sc := cellScenario("C06", tier, seed, run); sc != nil {
+			return sc
+		}
+		key := "C06/" + tier
+		if j := run - len(cellCache[key]); j < 1500 {
+			return genJunk("C06", tier, seed, j)
+		}
+		return nil
+	}
 	Gens["C12"] = func(tier string, seed uint64, run int) *Scenario {
 		sc := cellScenario("C12", tier, seed, run)
 		if sc != nil {
@@ -178,6 +197,21 @@ func EnumCells(check, tier string) ([]Cell, []byzConfig) {
 					add := func(idx int, kind string) {
 						cells = append(cells, Cell{Cfg: ci, Spec: TamperSpec{B: b, Type: row.Type, Field: f.Name, Index: idx, Kind: kind, Rcpt: -1}})
 					}
+					// openings B has committed to (the hash check passes, the value reaches the code behind it)
+					if _, isOpening := commitPairs[row.Type+"."+f.Name]; isOpening && bi == 0 && (check == "C05" || check == "C06" || check == "C15") {
+						if !(check == "C15" && strings.Contains(row.Type, "signing")) {
+							ed := strings.HasPrefix(cfg.P["proto"].(string), "ed")
+							for _, s := range cmKinds(ed, listLen(cfg.P, row.Type, f.Name)) {
+								if check == "C15" && strings.Contains(s.Kind, "add-torsion") {
+									continue // equivalent in the prime-order group after cofactor clearing: may be accepted
+								}
+								add(s.Index, s.Kind)
+							}
+						}
+					}
+					if check == "C06" && bi == 0 && f.Name == "theta" {
+						add(-1, "neg-sum-others") // crafted relation: the thetas sum to zero
+					}
 					switch check {
 					case "C05":
 						if bi > 0 && isProof && listLen(cfg.P, row.Type, f.Name) > 16 {
@@ -220,6 +254,36 @@ func EnumCells(check, tier string) ([]Cell, []byzConfig) {
 						add(-1, "append")
 						add(-1, "clear")
 						add(-1, "truncate1")
+					case "C13":
+						// MtA ciphertexts in flight
+						if bi > 0 || !(f.Name == "c" || f.Name == "c1" || f.Name == "c2") {
+							continue
+						}
+						for _, k := range []string{"+1", "-1", "rand", "other", "N2", "zero", "+N"} {
+							add(-1, k)
+						}
+					case "C15":
+						// dealt shares and their (de)commitments, dealer = B
+						isShare := f.Name == "share"
+						isCmt := f.Name == "de_commitment" || f.Name == "v_decommitment" || (f.Name == "commitment" && strings.Contains(row.Type, "Round1")) || f.Name == "v_commitment"
+						if !(isShare || isCmt) || strings.Contains(row.Type, "signing") {
+							continue
+						}
+						if !f.List {
+							for _, k := range []string{"+1", "-1", "rand", "other", "zero"} {
+								add(-1, k)
+							}
+							continue
+						}
+						n := listLen(cfg.P, row.Type, f.Name)
+						for idx := 0; idx < n; idx++ {
+							for _, k := range []string{"+1", "rand", "other"} {
+								add(idx, k)
+							}
+						}
+						add(n-1, "remove")
+						add(-1, "append")
+						add(1, "swap")
 					case "C12":
 						if !isProof || bi > 0 {
 							continue
@@ -354,10 +418,85 @@ func driveByz(rc *RunCtx) {
 	fired := 0
 	lenMismatch := ""
 	var others = map[string]proto.Message{} // latest message of each type from a non-B node
+	var othersAll = map[string][]proto.Message{}
 	var held []*Emission
 	needOther := spec.Kind == "other" || spec.Kind == "other-all"
+	negSum := spec.Kind == "neg-sum-others"
+	needAll := 0
+	if negSum {
+		for _, n := range w.Nodes {
+			if n != B && n.Committee == B.Committee {
+				needAll++
+			}
+		}
+	}
+	// consistent commitment tampering ("cm:<kind>"): B alters a value of its decommitment AND commits to
+	// the altered opening in the earlier round, so that the hash check passes and the value reaches
+	// the code behind it. The honest opening is taken from a replica run (same scenario, same entropy).
+	var cmCommitType, cmCommitField string
+	var cmNewC, cmNewD []byte
+	if strings.HasPrefix(spec.Kind, "cm:") {
+		pair, ok := commitPairs[spec.Type+"."+spec.Field]
+		if !ok {
+			rc.Fail("harness", "no commitment is paired with %s.%s", spec.Type, spec.Field)
+			return
+		}
+		cmCommitType, cmCommitField = pair[0], pair[1]
+		ref := rc.SetupProto("cm-replica", true)
+		if ref == nil {
+			return
+		}
+		ref.W.RunSchedule(&SchedConfig{Strategy: "fifo", MaxSteps: 4000})
+		var honest []byte
+		for _, em := range ref.W.Nodes[spec.B].Emitted {
+			if em.Type == spec.Type {
+				honest = em.Wire
+			}
+		}
+		if honest == nil {
+			rc.Fail("harness", "replica run: %s never sent %s", B.Name, spec.Type)
+			return
+		}
+		inner := *spec
+		inner.Kind = spec.Kind[3:]
+		nd, changed, err := ApplyTamper(honest, &inner, ctx)
+		if err != nil {
+			rc.Fail("harness", "tamper: %v", err)
+			return
+		}
+		if changed {
+			m, _ := decodeAny(nd)
+			var ints []*big.Int
+			for i := 0; i < listLenOf(m, spec.Field); i++ {
+				b, _ := getField(m, spec.Field, i)
+				ints = append(ints, new(big.Int).SetBytes(b))
+			}
+			if len(ints) == 0 {
+				ints = []*big.Int{big.NewInt(0)}
+			}
+			cmNewD = nd
+			cmNewC = common.SHA512_256i(ints...).Bytes()
+		}
+	}
 	applyAndSend := func(em *Emission) []byte {
 		ctx.Other = others[em.Type]
+		if negSum {
+			sum := big.NewInt(0)
+			for _, m := range othersAll[em.Type] {
+				b, _ := getField(m, spec.Field, -1)
+				sum.Add(sum, new(big.Int).SetBytes(b))
+			}
+			v := new(big.Int).Mod(sum.Neg(sum), ctx.Q)
+			nw, err := setBytesField(em.Wire, spec.Field, v.Bytes())
+			if err != nil {
+				rc.Fail("harness", "tamper: %v", err)
+				return em.Wire
+			}
+			fired++
+			w.Faults["tamper:neg-sum-others"]++
+			w.Logf("FAULT %s sends %s = -(sum of the others') after seeing theirs", B.Name, spec.Field)
+			return nw
+		}
 		// layout assertion for the static list-length table
 		if m, err := decodeAny(em.Wire); err == nil {
 			if n := listLenOf(m, spec.Field); n >= 0 {
@@ -382,6 +521,12 @@ func driveByz(rc *RunCtx) {
 		if from != B {
 			if m, err := decodeAny(em.Wire); err == nil {
 				others[em.Type] = m
+				if em.Type == spec.Type {
+					othersAll[em.Type] = append(othersAll[em.Type], m)
+				}
+			}
+			if negSum && len(othersAll[spec.Type]) < needAll {
+				return em.Wire, true
 			}
 			if em.Type == spec.Type && len(held) > 0 {
 				hs := held
@@ -392,11 +537,34 @@ func driveByz(rc *RunCtx) {
 			}
 			return em.Wire, true
 		}
-		if em.Type != spec.Type {
+		if cmNewD != nil {
+			switch em.Type {
+			case cmCommitType:
+				nw, err := setBytesField(em.Wire, cmCommitField, cmNewC)
+				if err != nil {
+					rc.Fail("harness", "tamper: %v", err)
+					return em.Wire, true
+				}
+				w.Logf("FAULT %s commits to an altered opening (%s)", B.Name, spec.Kind)
+				return nw, true
+			case spec.Type:
+				fired++
+				w.Faults["tamper:"+spec.Kind]++
+				w.Logf("FAULT %s opens its commitment to the altered values (%s on %s[%d])", B.Name, spec.Kind, spec.Field, spec.Index)
+				return cmNewD, true
+			}
+			return em.Wire, true
+		}
+		if em.Type != spec.Type || strings.HasPrefix(spec.Kind, "cm:") {
 			return em.Wire, true
 		}
 		if spec.Rcpt >= 0 && !(len(em.To) == 1 && em.To[0] == spec.Rcpt) {
 			return em.Wire, true
+		}
+		if negSum && len(othersAll[em.Type]) < needAll {
+			held = append(held, em)
+			w.Probes["byz_message_held_for_rushing"]++
+			return nil, false
 		}
 		if needOther && others[em.Type] == nil {
 			held = append(held, em)
@@ -647,6 +815,57 @@ func CheckSharingPartial(g Group, views []*KeyView, t, n int) error {
 }
 
 var _ = bytes.Equal
+
+// commitPairs: decommitment field -> (message type, field) of the commitment that covers it.
+var commitPairs = map[string][2]string{
+	"ecdsa.keygen.KGRound2Message2.de_commitment":       {"ecdsa.keygen.KGRound1Message", "commitment"},
+	"eddsa.keygen.KGRound2Message2.de_commitment":       {"eddsa.keygen.KGRound1Message", "commitment"},
+	"ecdsa.signing.SignRound4Message.de_commitment":     {"ecdsa.signing.SignRound1Message2", "commitment"},
+	"ecdsa.signing.SignRound6Message.de_commitment":     {"ecdsa.signing.SignRound5Message", "commitment"},
+	"ecdsa.signing.SignRound8Message.de_commitment":     {"ecdsa.signing.SignRound7Message", "commitment"},
+	"eddsa.signing.SignRound2Message.de_commitment":     {"eddsa.signing.SignRound1Message", "commitment"},
+	"ecdsa.resharing.DGRound3Message2.v_decommitment":   {"ecdsa.resharing.DGRound1Message", "v_commitment"},
+	"eddsa.resharing.DGRound3Message2.v_decommitment":   {"eddsa.resharing.DGRound1Message", "v_commitment"},
+}
+
+// cmKinds: alterations applied to an opening B has committed to (points start at odd indices).
+func cmKinds(ed bool, n int) []TamperSpec {
+	var out []TamperSpec
+	add := func(idx int, k string) { out = append(out, TamperSpec{Index: idx, Kind: "cm:" + k}) }
+	for i := 1; i+1 < n; i += 2 {
+		for _, k := range []string{"+1", "pt-identity", "pt-gen-other", "pt-swapxy", "pt-x-plus-p", "pt-neg", "zero"} {
+			add(i, k)
+		}
+		add(i+1, "+1")
+		add(i+1, "zero")
+		if ed {
+			for _, k := range []string{"pt-torsion1", "pt-torsion2", "pt-torsion4", "pt-torsion7", "pt-add-torsion1", "pt-add-torsion4"} {
+				add(i, k)
+			}
+		}
+	}
+	add(n-1, "remove")
+	add(0, "remove")
+	add(-1, "append")
+	add(-1, "clear")
+	add(-1, "truncate1")
+	add(0, "+1")
+	return out
+}
+
+func setBytesField(wire []byte, field string, val []byte) ([]byte, error) {
+	m, err := decodeAny(wire)
+	if err != nil {
+		return nil, err
+	}
+	r := m.ProtoReflect()
+	fd := r.Descriptor().Fields().ByName(protoreflect.Name(field))
+	if fd == nil || fd.IsList() {
+		return nil, fmt.Errorf("no singular field %s", field)
+	}
+	r.Set(fd, protoreflect.ValueOfBytes(val))
+	return encodeAny(m)
+}
 
 func dedupe(in []string) []string {
 	var out []string
